@@ -140,6 +140,17 @@ func genYModsCase(r *Rng) Case {
 			all["mc"]["subs"] = []any{s1, s2, s3}
 		}
 		all["mc"]["includes"] = inc
+		if r.Chance(60) {
+			// groupings in the submodules: one of mcs2 whose body uses another of its own, used from the other files of the
+			// module (whichever of them is walked first)
+			s2["grp"] = true
+			if len(carr(s1, "includes")) == 1 {
+				s1["usesSub"] = "mcs2"
+			}
+			if len(inc) == 2 && r.Chance(70) {
+				all["mc"]["usesSub"] = "mcs2"
+			}
+		}
 	}
 	c := Case{"k": "ymods", "mods": specs, "extraImports": []any{}, "fault": "none"}
 	// one fault in 45 % of the cases
@@ -247,6 +258,24 @@ func genYModsCase(r *Rng) Case {
 						td.(mspec)["st"] = pick(r, []string{"current", "deprecated", "obsolete"})
 					}
 				}
+				// a grouping with a status, used some levels below a container with one (what lies between says nothing: the
+				// status is inherited all the way down), the uses with or without a status of its own — never a better one
+				var gst []any
+				for i := r.Intn(3); i > 0; i-- {
+					sts := []string{"current", "deprecated", "obsolete"}
+					o := r.Intn(4) - 1 // -1: no statement
+					e := mspec{"i": i, "g": pick(r, sts), "o": "", "u": "", "depth": r.Intn(3)}
+					if o >= 0 {
+						e["o"] = sts[o]
+					} else {
+						o = 0
+					}
+					if r.Chance(30) {
+						e["u"] = sts[o+r.Intn(3-o)]
+					}
+					gst = append(gst, e)
+				}
+				all[om]["gst"] = gst
 				for _, l := range carr(all[om], "leaves") {
 					if cstr(l.(mspec), "type") != "identityref" && r.Chance(50) {
 						l.(mspec)["st"] = pick(r, []string{"current", "deprecated", "obsolete"})
@@ -432,6 +461,30 @@ func renderMod(c Case, s mspec) string {
 		fmt.Fprintf(&b, "    container %su%d { uses %s; }\n", m, i, ref(m, u.(string)))
 	}
 	b.WriteString("  }\n")
+	if x := cstr(s, "usesSub"); x != "" {
+		fmt.Fprintf(&b, "  container %ssubu { uses %sgb; }\n", m, x)
+	}
+	for _, e := range carr(s, "gst") {
+		em := e.(mspec)
+		i := cint(em, "i")
+		stmt := func(k string) string {
+			if x := cstr(em, k); x != "" {
+				return " status " + x + ";"
+			}
+			return ""
+		}
+		fmt.Fprintf(&b, "  grouping %ssg%d {%s leaf %ssgl%d { type string; } }\n  container %sso%d {%s", m, i, stmt("g"), m, i, m, i, stmt("o"))
+		for d := 0; d < cint(em, "depth"); d++ {
+			fmt.Fprintf(&b, " container %ssm%d%d {", m, i, d)
+		}
+		fmt.Fprintf(&b, " uses %ssg%d", m, i)
+		if cstr(em, "u") != "" {
+			b.WriteString(" {" + stmt("u") + " }")
+		} else {
+			b.WriteString(";")
+		}
+		b.WriteString(strings.Repeat(" }", cint(em, "depth")+1) + "\n")
+	}
 	if a := cstr(s, "augleaf"); a != "" {
 		p := "/ma:matop/ma:slot"
 		if ap := cstr(s, "augpath"); ap != "" {
@@ -467,6 +520,12 @@ func renderSub(parent string, s mspec) string {
 	}
 	if cbool(s, "ident") {
 		fmt.Fprintf(&b, "  identity %sbase;\n  identity %sder { base %sbase; }\n  leaf %sidl { type identityref { base %sbase; } }\n", n, n, n, n, n)
+	}
+	if cbool(s, "grp") {
+		fmt.Fprintf(&b, "  grouping %sga { leaf %sgal { type string; } }\n  grouping %sgb { uses %sga; container %sgbc { uses %sga; } }\n", n, n, n, n, n, n)
+	}
+	if x := cstr(s, "usesSub"); x != "" {
+		fmt.Fprintf(&b, "  grouping %sgu { uses %sgb; }\n  container %sgtop { uses %sgu; }\n", n, x, n, n)
 	}
 	fmt.Fprintf(&b, "  container %stop { leaf %sl { type string; } }\n}\n", n, n)
 	return b.String()
